@@ -47,12 +47,14 @@ def fam_task(task):
     for _ in range(rounds):
         try:
             scs = fam(rng)
-        except Exception as e:
+        except BaseException as e:
             # the scenarios are built with the real builders / helper classes on valid inputs: a raise there is itself a failing input
             import traceback
             stats['scenario-construction-raised'] += 1
-            add_viol(dict(what='building the %s scenarios with the real builders on valid inputs raised %s: %s | %s' %
-                          (name, type(e).__name__, str(e)[:200], ' <- '.join(l.strip() for l in traceback.format_exc().splitlines()[-8:])[:900])))
+            calls_ = [f_.line for f_ in traceback.extract_tb(e.__traceback__) if f_.filename.endswith('builders.py') and f_.name != 'call']
+            add_viol(dict(what='building the %s scenarios with the real builders on valid inputs raised %s: %s | the call: %s | %s' %
+                          (name, type(e).__name__, str(e)[:200], (calls_[-1] if calls_ else '?')[:300],
+                           ' <- '.join(l.strip() for l in traceback.format_exc().splitlines()[-8:] if '^^^' not in l)[:700])))
             continue
         for sc in scs:
             if sc[0] == 'MT':           # model command with the implementation's expected answer
@@ -156,7 +158,17 @@ def fam_task(task):
     pid = {'c13': 'C13', 'c14': 'C14', 'c15': 'C15', 'c16': 'C16', 'c04': 'C04', 'c05': 'C05', 'c17': 'C17'}.get(name)
     if pid:
         for _ in range(max(1, rounds // 2)):
-            for p_, cmd, real in builders.bld_cases(rng):
+            try:
+                cases_ = builders.bld_cases(rng, only=pid)
+            except BaseException as e_:
+                # a builder of this property refused arguments its documentation allows (the call is in the traceback)
+                import traceback as _tb
+                fr_ = [f_ for f_ in _tb.extract_tb(e_.__traceback__) if f_.name == 'bld_cases']
+                stats['builder-raised'] += 1
+                add_viol(dict(what='a builder of tapescript.tools raised %s: %s on documented arguments; the call: %s'
+                              % (type(e_).__name__, str(e_)[:120], (fr_[-1].line if fr_ else '?')[:300])))
+                continue
+            for p_, cmd, real in cases_:
                 if p_ != pid:
                     continue
                 n += 1
@@ -417,8 +429,8 @@ def c01_task(task):
         if not scripts[0] and rng.random() < 0.5:
             scripts[0] = b'\x01'
         cv = g.cache_vals()
-        if rng.random() < 0.05:
-            cv['returned'] = True
+        if rng.random() < 0.08:
+            cv['returned'] = rng.choice([True, True, False, 0, 1, b'', b'x', ''])      # an entry under the VM's own control key, of any truth value
         st, iline, mline = tsh.compare_auth(model, scripts, cv, cfg)
         stats[st] += 1
         stats['verdict-true' if iline.startswith('verdict:1') else 'verdict-false'] += 1
@@ -864,9 +876,11 @@ def c03_task(task):
     stats = collections.Counter()
     dis, viol, samples = [], [], []
     digests = set()
-    cfg = tsh.Cfg()
     for it in range(n):
-        sf = {'sigfield1': bytes(rng.getrandbits(8) for _ in range(4)), 'sigfield2': b'zz'}
+        # roomy but unequal stack limits now and then (depth limit below / above the size of the message and of a signature, item limit
+        # well above both): the verdict may not depend on them
+        cfg = tsh.Cfg() if rng.random() < 0.8 else tsh.Cfg(max_items=rng.choice([64, 96, 200, 1024, 2048]), max_item_size=rng.choice([200, 512, 1024, 4096]))
+        sf = {'sigfield1': bytes(rng.getrandbits(8) for _ in range(rng.choice([4, 4, 4, 40, 120]))), 'sigfield2': b'zz'}
         nk = rng.randint(1, 4)
         ks = rng.sample(range(len(SEEDS)), nk)
         if rng.random() < 0.1 and nk >= 2:
